@@ -801,3 +801,48 @@ func c04NoSharedWrites(c *Check, id string, r *GCRoles) {
 	}
 	c.Report(true, id, "SHARED-ARGUMENTS-SCANNED", D, D.Pos(), "deliver function", fmt.Sprintf("%d map updates in the deliver function examined", n))
 }
+
+// c04SendersStart: inside the fan-out (the function that starts one sender per subscription and everything nested in
+// it) nothing waits before a sender is started: a message's delivery to one subscription depends on that subscription
+// alone — not on an earlier message having been settled by all, a timer, or another subscriber.
+func c04SendersStart(c *Check, id string, r *GCRoles) {
+	n := 0
+	for _, fn := range WithAnon(r.Fan) {
+		var starts []ssa.Instruction
+		for _, cl := range CallsIn(fn) {
+			cal := CalleeFn(cl.Common())
+			if cal == nil {
+				cal = FuncOfValue(cl.Common().Value)
+			}
+			if cal == nil {
+				continue
+			}
+			if cal == r.Deliver || (cal.Parent() != nil && outermost(cal) == r.Fan && len(Callers(WithAnon(cal), r.Deliver)) > 0) {
+				starts = append(starts, cl)
+			}
+		}
+		if len(starts) == 0 {
+			continue
+		}
+		for _, op := range BlockingOps(fn) {
+			if op.Kind == "lock" || op.Ins.Parent() != fn {
+				continue
+			}
+			ra := ReachAfter(op.Ins, nil)
+			for _, st := range starts {
+				if st.Parent() == fn && ra[st] {
+					n++
+					c.Report(false, id, "SENDERS-START-WITHOUT-WAITING", fn, op.Ins.Pos(), "blocking "+op.Kind+" in front of a sender start", "inside the fan-out nothing waits before a subscription's sender is started: whether and when a subscription receives a message depends on that subscription alone (not on another message, subscriber or timer)")
+				}
+			}
+		}
+	}
+	c.Report(true, id, "FANOUT-WAITS-SCANNED", r.Fan, r.Fan.Pos(), "fan-out", fmt.Sprintf("%d blocking operations in front of a sender start", n))
+}
+
+func outermost(f *ssa.Function) *ssa.Function {
+	for f != nil && f.Parent() != nil {
+		f = f.Parent()
+	}
+	return f
+}
